@@ -202,7 +202,12 @@ def run_decompiled(src, result_name="result"):
             bound |= {t.id for t in n.targets if isinstance(t, ast.Name)}
         elif isinstance(n, ast.ImportFrom):
             bound |= {a.asname or a.name for a in n.names}
-    free = {n.id for n in ast.walk(tree) if isinstance(n, ast.Name)} - bound
+    # every name the program mentions is available as a builtin stand-in until the program itself rebinds it
+    # (an import further down shadows the builtin only from there on); temporaries and results are excluded so
+    # that a use before assignment still fails
+    import re as _re
+    free = {n.id for n in ast.walk(tree) if isinstance(n, ast.Name)}
+    free = {x for x in free if x not in bound or not _re.fullmatch(r"_var\d+|result\d*", x)}
 
     class Unp:
         def persistent_load(self, pid):
